@@ -22,9 +22,6 @@ pub fn parse_impl(src: &str) -> String {
                     return "(bad-errors empty-text)".into();
                 }
                 let (l, c) = e.pos;
-                if (l, c) == (0, 0) {
-                    continue;
-                }
                 if l < 1 || l as usize > lines.len() {
                     return format!("(bad-errors line-out-of-source {} {})", l, c);
                 }
@@ -260,6 +257,11 @@ pub fn run(em: &mut Emit, thorough: bool, seed: u64) {
               "1e400", "1e-400", "0.0000000000000000000000000000001e31", "1e99999999999999999999", "0x", "0xg", "1u2",
               "a\n+\nb", "a // c", "// only", "a /", "&", "|", "=", "a = b", "a.b.c(d)[e].f", "[[[[1]]]]", "((((a))))"] {
         emit_src(em, s, "nt=1;kind=corpus");
+    }
+    // an error about an argument that is itself a failed macro (the placeholder has no offset)
+    for s in ["has(has(x))", "has(x.all(1, y))", "[1].map(has(1), 2)", "x.all(has(1), true)", "has(has(has(1)))",
+              "x.map(1, 2).map(3, 4)", "has(\n has(x))", "'é' + has(has(x))"] {
+        emit_src(em, s, "nt=1;kind=corpus-cascade");
     }
     for s in ["\"\\uD800\"", "'\\udfff'", "b\"\\udc00\"", "\"\\U0000D800\"", "\"\\U00110000\"", "'\\U0010FFFF'", "'\\ud7ff\\ue000'",
               "\"\\UFFFFFFFF\"", "'''\\uDBFF'''", "b'\\u0080'", "'\\u12'", "'\\777'", "'\\377'", "b'\\400'", "r'\\uD800'", "size('\\uD800')"] {
